@@ -400,6 +400,111 @@ def ref(chunks, size=10000000):
         yield pd.concat(buf, axis=0)
 ''')
 
+ref('cooler.fileops.TreeNode.__init__', 'cooler.fileops', 'a tree node keeps the object, its depth and the depth limit', ['C15', 'C17'])('''
+def ref(self, obj, depth=0, level=None):
+    self.obj = obj
+    self.depth = depth
+    self.level = level
+''')
+
+ref('cooler.fileops.TreeNode.get_children', 'cooler.fileops',
+    'one child node per member, in member order (the traversal pairs children with member names positionally), one level deeper, '
+    'none below the depth limit', ['C15', 'C17'])('''
+def ref(self):
+    if hasattr(self.obj, "values"):
+        if self.level is None or self.depth < self.level:
+            return [self.__class__(o, depth=self.depth + 1, level=self.level) for o in self.obj.values()]
+    return []
+''')
+
+ref('cooler.cli.fileops.cp', 'cooler.cli.fileops', 'cooler cp copies SRC to DST, overwriting only when asked', ['C15'])('''
+def ref(src_uri, dst_uri, overwrite):
+    fileops.cp(src_uri, dst_uri, overwrite=overwrite)
+''')
+
+ref('cooler.cli.fileops.mv', 'cooler.cli.fileops', 'cooler mv renames SRC to DST, overwriting only when asked', ['C15'])('''
+def ref(src_uri, dst_uri, overwrite):
+    fileops.mv(src_uri, dst_uri, overwrite=overwrite)
+''')
+
+ref('cooler.cli.fileops.ln', 'cooler.cli.fileops', 'cooler ln links SRC at DST: hard unless --soft, overwriting only when asked', ['C15'])('''
+def ref(src_uri, dst_uri, overwrite, soft):
+    fileops.ln(src_uri, dst_uri, overwrite=overwrite, soft=soft)
+''')
+
+ref('cooler.cli.fileops.ls', 'cooler.cli.fileops', 'cooler ls prints one URI per collection of the file, exactly those listed', ['C15'])('''
+def ref(cool_path, long):
+    from ..api import Cooler
+    for group_path in fileops.list_coolers(cool_path):
+        uri = cool_path + "::" + group_path
+        if long:
+            binsize = Cooler(uri).binsize
+            if binsize is None:
+                s = f"{uri}\\t<variable>"
+            else:
+                s = f"{uri}\\t{binsize:,}"
+            click.echo(s)
+        else:
+            click.echo(uri)
+''')
+
+ref('cooler.cli.merge.merge', 'cooler.cli.merge',
+    'cooler merge: every input, the buffer size, the value columns with their dtypes / aggregations and the file mode reach merge_coolers',
+    ['C07'])('''
+def ref(out_path, in_paths, chunksize, field, append):
+    if len(field):
+        field_specifiers = [parse_field_param(arg, includes_colnum=False) for arg in field]
+        columns, _, dtypes, agg = zip(*field_specifiers)
+        dtypes = {col: dt for col, dt in zip(columns, dtypes) if dt is not None}
+        agg = {col: f for col, f in zip(columns, agg) if f is not None}
+    else:
+        columns, dtypes, agg = ["count"], None, None
+    merge_coolers(out_path, in_paths, mergebuf=chunksize, columns=columns, dtypes=dtypes, agg=agg, mode="a" if append else "w")
+''')
+
+ref('cooler.cli.coarsen.coarsen', 'cooler.cli.coarsen',
+    'cooler coarsen: factor, chunk size, workers, value columns with dtypes / aggregations and file mode reach coarsen_cooler; '
+    'the file lock is used exactly when input and output are the same file', ['C08'])('''
+def ref(cool_uri, factor, nproc, chunksize, field, out, append):
+    infile, _ = parse_cooler_uri(cool_uri)
+    outfile, _ = parse_cooler_uri(out)
+    same_file = op.realpath(infile) == op.realpath(outfile)
+    if len(field):
+        field_specifiers = [parse_field_param(arg, includes_colnum=False) for arg in field]
+        columns, _, dtypes, agg = zip(*field_specifiers)
+        dtypes = {col: dt for col, dt in zip(columns, dtypes) if dt is not None}
+        agg = {col: f for col, f in zip(columns, agg) if f is not None}
+    else:
+        columns, dtypes, agg = ["count"], None, None
+    coarsen_cooler(cool_uri, out, factor, chunksize=chunksize, nproc=nproc, columns=columns, dtypes=dtypes, agg=agg,
+                   lock=lock if same_file else None, mode="a" if append else "w")
+''')
+
+ref('cooler.util.natsort_key', 'cooler.util', 'natural sort key: digit runs compare as integers, the rest as text, empty pieces dropped',
+    ['C15', 'C17', 'C20'])('''
+def ref(s, _NS_REGEX=re.compile(r"(\\d+)", re.U)):
+    return tuple([int(x) if x.isdigit() else x for x in _NS_REGEX.split(s) if x])
+''')
+
+ref('cooler.util.atoi', 'cooler.util', 'integer with thousands separators', ['C19'])('''
+def ref(s):
+    return int(s.replace(",", ""))
+''')
+
+ref('cooler.util.GenomeSegmentation.fetch', 'cooler.util',
+    'bins of a region: first bin whose end is beyond the start, up to the last bin that starts before the end; the whole chromosome otherwise',
+    ['C04', 'C05'])('''
+def ref(self, region):
+    chrom, start, end = parse_region(region, self.chromsizes)
+    result = self._bins_grouped.get_group(chrom)
+    if start > 0 or end < self.chromsizes[chrom]:
+        lo = result["end"].values.searchsorted(start, side="right")
+        hi = lo + result["start"].values[lo:].searchsorted(end, side="left")
+        result = result.iloc[lo:hi]
+    return result
+''')
+
+
 
 def run_for(ctx, prop):
     """Compare every supporting function attached to ``prop``."""
